@@ -93,12 +93,12 @@ Proof.
   aeb; [apply Hev|]. aeb; [apply IH | rf].
 Qed.
 
-Lemma dirs_agree en ds : forall n, cagree (sE (dirs_spec cf l1 en ds) n) (sE (dirs_spec cf l2 en ds) n).
+Lemma dirs_agree en ds : forall v n, cagree (sE (dirs_spec cf l1 en ds v) n) (sE (dirs_spec cf l2 en ds v) n).
 Proof.
-  induction ds as [|d ds IH]; intros n; cbn [dirs_spec]; [rf|].
+  induction ds as [|d ds IH]; intros v n; cbn [dirs_spec]; [rf|].
   destruct d; try rf. destruct (lookup_directive name) as [[al rest]|]; [|rf].
   destruct (negb (check_num_args al (length args))); [rf|].
-  aeb; [apply ev_list_agree|]. aeb; [apply IH | rf].
+  aeb; [apply ev_list_agree|]. aeb; [rf|]. aeb; [rf|]. aeb; [apply IH | rf].
 Qed.
 
 Lemma case_hit_agree en sv vs : forall n, cagree (sE (case_hit_spec l1 en sv vs) n) (sE (case_hit_spec l2 en sv vs) n).
